@@ -63,6 +63,9 @@ func Thorough(repo string, prop *Property, seed int, evidencePath, findingsPath,
 	detected, applied := 0, 0
 	for _, pf := range patches {
 		res := st{Patch: strings.TrimPrefix(pf, selftestDir+"/")}
+		if abs, err := filepath.Abs(pf); err == nil {
+			pf = abs
+		}
 		dir, err := os.MkdirTemp("", "vsa-selftest-")
 		if err != nil {
 			res.Result = "mkdtemp: " + err.Error()
@@ -100,7 +103,11 @@ func Thorough(repo string, prop *Property, seed int, evidencePath, findingsPath,
 			fds, _ := loadFindings(findingsPath)
 			var firing []string
 			for _, o := range c.Obls {
-				if o.Status == Discharged {
+				// only what would make the check fail counts as a detection
+				if o.Status != Violated && o.Status != Undecided {
+					continue
+				}
+				if _, adv := isAdvisory(prop.ID, o.Key()); adv {
 					continue
 				}
 				known := false
